@@ -38,10 +38,12 @@ class Path:
     ended: str | None = None    # return | break | continue | raise
     #: locals bound to a list / dict / set display (kept by name)
     objs: dict[str, ast.expr] = field(default_factory=dict)
+    #: names that are mutated in place somewhere in the analysed code
+    mutated: frozenset = frozenset()
 
     def fork(self) -> "Path":
         return Path(dict(self.env), self.guards, list(self.events),
-                    self.ended, dict(self.objs))
+                    self.ended, dict(self.objs), self.mutated)
 
 
 class _Subst(ast.NodeTransformer):
@@ -105,7 +107,10 @@ def _split_ifexp(e: ast.expr) -> list[tuple[tuple, ast.expr]]:
 
 def paths(stmts: list[ast.stmt], start: Path | None = None,
           max_paths: int = 256) -> list[Path]:
-    cur = [start or Path()]
+    from sa.srcmodel import mutated_names
+    start = start or Path()
+    start.mutated = frozenset(start.mutated | mutated_names(list(stmts)))
+    cur = [start]
     for s in stmts:
         nxt: list[Path] = []
         for p in cur:
@@ -138,7 +143,7 @@ def _is_object(v: ast.expr) -> bool:
 
 def _bind(p: Path, t: ast.expr, v: ast.expr, s: ast.stmt) -> None:
     if isinstance(t, ast.Name):
-        if _is_object(v):
+        if _is_object(v) or t.id in p.mutated:
             # a mutable object keeps its name (identity matters: appends)
             p.objs[t.id] = v
             p.env.pop(t.id, None)
